@@ -97,6 +97,7 @@ def build_files(fd):
         "X2": {"input": "x2.cif", "args": ["--ff=PARSE"]},
         "L1": {"input": "l1.pdb", "args": ["--ff=AMBER", "--ligand=@DIR@/l1.mol2"]},
         "L2": {"input": "l2.pdb", "args": ["--ff=AMBER", "--ligand=@DIR@/l2.mol2", "--keep-chain"]},
+        "L3": {"input": "l1.pdb", "args": ["--ff=PARSE", "--ligand=@DIR@/l1.mol2"]},
         "PA": {"input": "a.pdb", "args": ["--ff=AMBER", "--titration-state-method=propka", "--with-ph=2"]},
         "K": {"input": "k.pdb", "args": ["--ff=AMBER", "--keep-chain", "--noopt"]},
         "H": {"input": "h.pdb", "args": ["--ff=PARSE", "--keep-chain"]},
@@ -122,7 +123,7 @@ def _work(job):
 
 def run(ctx):
     rng = random.Random(ctx.seed)
-    ctx.rule = ("histories <= 3 runs over eighteen configurations (two built-in force-field runs, a --usernames variant of the "
+    ctx.rule = ("histories <= 3 runs over nineteen configurations (two built-in force-field runs, a --usernames variant of the "
                 "same --ff, two user force fields, an input needing multi-atom repair, a run failing in parsing, a run "
                 "failing in the charge check, a PROPKA run, an input among unparseable records, a two-model file, two mmCIF inputs with different optional columns, two ligand complexes, a low-pH PROPKA run under AMBER, two inputs for which chain identifiers are handed out), each in a fresh interpreter x hash seeds; quick: all of length "
                 "<= 2 plus a seeded sample of length 3.  Distinct = distinct (history, seed); non-trivial = length >= 2")
@@ -130,7 +131,7 @@ def run(ctx):
                         "the verdict is on the bytes of the PQR file (or the exception class) only"]
     ctx.trusted += ["vlib/histchild.py", "TLC 1.8"]
     cfg = os.path.join(ctx.work, "h.cfg")
-    names = ["A", "B", "C", "U1", "U2", "D", "F1", "F2", "P", "E", "M", "X1", "X2", "L1", "L2", "PA", "K", "H"]
+    names = ["A", "B", "C", "U1", "U2", "D", "F1", "F2", "P", "E", "M", "X1", "X2", "L1", "L2", "PA", "K", "H", "L3"]
 
     def cfg_text(leak, emit, invs, maxruns=3):
         s = ("SPECIFICATION Spec\nCONSTANTS\n  Configs = {" + ", ".join(json.dumps(n) for n in names) + "}\n"
@@ -152,7 +153,7 @@ def run(ctx):
     core.need_ok(r, "History emit")
     ctx.add_tlc(r, "history emission")
     hists = [json.loads(v[1:]) for v in r.printed if isinstance(v, str) and v.startswith("@")]
-    if len(hists) != 18 + 18 ** 2 + 18 ** 3:
+    if len(hists) != 19 + 19 ** 2 + 19 ** 3:
         raise core.MachineryError(f"emitted {len(hists)} histories")
     files = os.path.join(ctx.work, "files")
     configs = build_files(files)
